@@ -125,6 +125,7 @@ func callResults(call *ssa.Call) map[int]ssa.Value {
 func C13(c *Ctx) {
 	c.R.Explanation = "Decides structural necessary conditions of representation independence and idempotent compilation: (R1) the pattern parser is applied at exactly one site (inside ParsePatterns' branch loop), every value stored into Branch.Pattern there is the canonicalised (JSON round-tripped) parser result, and a successful ParsePatterns records that patterns are in parsed form (PatternSyntax set to a pass-through constant) so that a second Compile or a Compile after reload cannot parse again; (R2) every field of type *ActionSource reachable from Spec has a Compile call on it inside Spec.Compile whose error is propagated, and no iteration of the node loop or branch loop can skip the branching-type check or the guard compilation; (R3) every nil-error return of Compile is dominated by the store compiled=true and that store is reached only past all compilation; (R4) unknown pattern syntax, branching type and interpreter each lead to a non-nil error; (R5) every host function that returns a spec it unmarshalled passes it through Compile with the error checked. Behavioural equivalence of the renderings is not decided."
 	c.R.Rule("C13-R1", "E3+E5", "parse once, canonicalise, remember", 4)
+	c13TextDecoded(c, "C13-R1")
 	c.R.Rule("C13-R2", "E6+E3", "every source compiled; no iteration skips validation", 6)
 	c.R.Rule("C13-R3", "E3", "success implies compiled", 2)
 	c.R.Rule("C13-R4", "E6", "rejection of unknown syntax, branching type, interpreter", 3)
